@@ -14,6 +14,7 @@
 From Remoc Require Import Lib.Base Rch.Broadcast Robs.SeqCommon Robs.Mirror Robs.MirrorProofs Robs.MirrorInst.
 From Remoc Require Import Robs.List_ Robs.ListDist Robs.ListDistProofs.
 From Remoc Require Robs.Vec Robs.VecProofs Robs.VecDeque Robs.VecDequeProofs Robs.HashMap Robs.HashSet.
+From Remoc Require Run.RunRobsLag Run.RunRobsLagProofs.
 
 (** The collection kinds covered: in each event type the [Done] event is recognisable. *)
 Theorem C14_instances :
@@ -99,6 +100,16 @@ Theorem C14_list : forall init acts s i u,
      exists l1 l2, l_log u = l1 ++ LEv EInitialComplete :: l2 /\ length (log_vals l1) = l_ilen u).
 Proof. exact list_subscriber. Qed.
 
+(** Every state the big-step runner of the correspondence check visits ([Run/RunRobsLag.v]: bursts of
+    calls, subscriptions, [recv] calls of slow consumers, drops, each followed by "all tasks run until
+    idle") is reachable by small steps, so the theorems above apply to what is compared with the code. *)
+Theorem C14_big_steps_sound : forall (I : iface) dec_ops bs s s',
+  RunRobsLag.bigs I dec_ops bs s = Some s' -> exists acts, run I acts s = Some s'.
+Proof. exact RunRobsLagProofs.bigs_sound. Qed.
+Theorem C14_list_big_steps_sound : forall bs st st',
+  RunRobsLag.lbigs bs st = Some st' -> exists acts, lrun acts (fst st) = Some (fst st').
+Proof. exact RunRobsLagProofs.lbigs_sound. Qed.
+
 (** Non-vacuity: a vector [1]; a mirror with buffer 1 and an incremental consumer by hand with
     buffer 2 subscribe; three pushes; the mirror takes one event, its re-admission task queues the
     marker, the mirror reads it: error Lagged, contents [1; 5] (the state after the first push), and
@@ -125,3 +136,5 @@ Print Assumptions C14_hand.
 Print Assumptions C14_consistent_vec.
 Print Assumptions C14_consistent_deque.
 Print Assumptions C14_list.
+Print Assumptions C14_big_steps_sound.
+Print Assumptions C14_list_big_steps_sound.
